@@ -3,7 +3,7 @@
    been destroyed the caller's descriptor table is exactly what it was.  The single-handle
    machinery of FdSpec is lifted by re-basing: what the other handles own is, for the handle being
    operated on, part of "the caller's table", which FdSpec proves untouched. *)
-From Verif Require Import Lib WorldSpec WorldSpec2 LibSpec WaitSpec ParentSpec StartSpec StopSpec FdSpec.
+From Verif Require Import Lib WorldSpec WorldSpec2 LibSpec WaitSpec ParentSpec StartSpec StopSpec FdSpec HeapSpec MemSpec RunSpec.
 From Coq Require Import Lia Permutation.
 Local Open Scope Z_scope.
 
@@ -141,6 +141,14 @@ Proof.
     + split; [exact Hc|]. split; [|exact Hnb1]. apply Forall_app. split; [exact Hs|]. constructor; [apply side_fresh, fresh_rp_new|constructor].
 Qed.
 
+Lemma MI_runex T c ps fuel argv o src s w x w' : MI T c ps w -> reproc_run_ex fuel argv o src s w = Ret x w' -> MI T c ps w'.
+Proof.
+  intros (Hq & Hc & Hs & Hnb) E.
+  pose proof (fqn_rebase T [] (POWNS ps) c w Hq) as Hb.
+  destruct (run_ex_fq _ _ _ _ _ _ _ _ _ _ Hb Hc Hnb E) as [H1 Hnb1].
+  split; [exact (fqn_release T [] [] (POWNS ps) c w w' Hq H1)|]. split; [exact Hc|]. split; assumption.
+Qed.
+
 (* ---- histories over several handles ---- *)
 Fixpoint split_at (i : nat) (ps : list rp) : option (list rp * rp * list rp) :=
   match ps, i with
@@ -159,7 +167,8 @@ Qed.
 Inductive mop :=
 | MNew                             (* reproc_new: one more handle (or none, if the allocation fails) *)
 | MCall (i : nat) (op : hop)       (* a call on the i-th live handle *)
-| MDestroy (i : nat).              (* reproc_destroy of the i-th live handle *)
+| MDestroy (i : nat)               (* reproc_destroy of the i-th live handle *)
+| MRunEx (fuel : nat) (argv : option (list str)) (o : options) (src : Z) (s : sinkst).   (* a whole reproc_run_ex in between *)
 
 Definition run_mop (ck : rp -> MW unit) (ps : list rp) (m : mop) : MW (list rp) :=
   match m with
@@ -174,6 +183,7 @@ Definition run_mop (ck : rp -> MW unit) (ps : list rp) (m : mop) : MW (list rp) 
       | Some (l1, p, l2) => reproc_destroy p ;> ret (l1 ++ l2)
       | None => ret ps
       end
+  | MRunEx fuel argv o src s => reproc_run_ex fuel argv o src s ;> ret ps
   end.
 Fixpoint run_mops (ck : rp -> MW unit) (ps : list rp) (ms : list mop) : MW (list rp) :=
   match ms with
@@ -188,7 +198,7 @@ Fixpoint destroy_all (ps : list rp) : MW unit :=
 
 Lemma MI_run_mop T c ck ps m w ps' w' : MI T c ps w -> (forall q, kp c (ck q)) -> run_mop ck ps m w = Ret ps' w' -> MI T c ps' w'.
 Proof.
-  intros H Hk E. destruct m as [|i op|i]; cbn [run_mop] in E.
+  intros H Hk E. destruct m as [|i op|i|fuel argv o src s0]; cbn [run_mop] in E.
   - apply bind_inv in E as (np & w1 & E1 & E). apply ret_inv in E as [-> ->]. exact (MI_new _ _ _ _ _ _ H E1).
   - destruct (split_at i ps) as [[[l1 p] l2]|] eqn:Es; [|apply ret_inv in E as [-> ->]; exact H].
     apply split_at_app in Es. subst ps. apply bind_inv in E as (p' & w1 & E1 & E). apply ret_inv in E as [-> ->].
@@ -196,6 +206,7 @@ Proof.
   - destruct (split_at i ps) as [[[l1 p] l2]|] eqn:Es; [|apply ret_inv in E as [-> ->]; exact H].
     apply split_at_app in Es. subst ps. apply bind_inv in E as (u & w1 & E1 & E). apply ret_inv in E as [-> ->].
     exact (MI_destroy _ _ _ _ _ _ _ _ H E1).
+  - apply bind_inv in E as (x & w1 & E1 & E). apply ret_inv in E as [-> ->]. exact (MI_runex _ _ _ _ _ _ _ _ _ _ _ H E1).
 Qed.
 Lemma MI_run_mops T c ck ms : forall ps w ps' w', MI T c ps w -> (forall q, kp c (ck q)) -> run_mops ck ps ms w = Ret ps' w' -> MI T c ps' w'.
 Proof.
